@@ -2504,3 +2504,147 @@ func ruleOperandOrder(prog *Program, rep *Report, rels ...string) {
 	rep.Rules = append(rep.Rules, "F-order: a function with two like-typed leading operands that calls itself passes a part of its first operand first and a part of its second operand second (derivation through assignments, comma-ok, type-switch bindings, range): Match and diff are not symmetric in their operands")
 	runSynRule(prog, rep, "F-order", rels, matchOperandOrder, fixtureOperandOrder, 1, 6)
 }
+
+// ---------------------------------------------------------------- R-cursor
+
+// matchCursorAdvance: an element taken from a receiver's slice field at a receiver's
+// cursor field (m = p.maps[p.mi]) is handed out; the cursor has to move past it on
+// every path, otherwise the next request hands out the same element again (with the
+// Reuse option: two objects of one document become the same map). Accepted: an
+// increment of that cursor as a later statement of the block holding the read or of
+// one of the enclosing blocks, up to the enclosing case clause / loop body / function.
+func matchCursorAdvance(files []*ast.File, info *types.Info) (sites []synSite, examined int) {
+	for _, f := range files {
+		for _, d := range f.Decls {
+			fd, ok := d.(*ast.FuncDecl)
+			if !ok || fd.Body == nil || fd.Recv == nil || len(fd.Recv.List) != 1 || len(fd.Recv.List[0].Names) != 1 {
+				continue
+			}
+			recv := info.Defs[fd.Recv.List[0].Names[0]]
+			isRecvField := func(e ast.Expr) (string, bool) {
+				sel, ok := ast.Unparen(e).(*ast.SelectorExpr)
+				if !ok {
+					return "", false
+				}
+				id, ok := sel.X.(*ast.Ident)
+				if !ok || info.Uses[id] != recv {
+					return "", false
+				}
+				return sel.Sel.Name, true
+			}
+			var path []ast.Node
+			ast.Inspect(fd.Body, func(n ast.Node) bool {
+				if n == nil {
+					path = path[:len(path)-1]
+					return true
+				}
+				path = append(path, n)
+				as, ok := n.(*ast.AssignStmt)
+				if !ok || len(as.Lhs) != 1 || len(as.Rhs) != 1 {
+					return true
+				}
+				ix, ok := ast.Unparen(as.Rhs[0]).(*ast.IndexExpr)
+				if !ok {
+					return true
+				}
+				sf, ok1 := isRecvField(ix.X)
+				cf, ok2 := isRecvField(ix.Index)
+				if !ok1 || !ok2 {
+					return true
+				}
+				if _, isId := as.Lhs[0].(*ast.Ident); !isId {
+					return true
+				}
+				examined++
+				// walk outwards
+				advanced := false
+				child := ast.Node(as)
+				for i := len(path) - 2; i >= 0 && !advanced; i-- {
+					var list []ast.Stmt
+					stop := false
+					switch b := path[i].(type) {
+					case *ast.BlockStmt:
+						list = b.List
+						if i > 0 {
+							switch path[i-1].(type) {
+							case *ast.ForStmt, *ast.RangeStmt, *ast.FuncDecl, *ast.FuncLit:
+								stop = true
+							}
+						}
+					case *ast.CaseClause:
+						list = b.Body
+						stop = true
+					default:
+						child = path[i]
+						continue
+					}
+					after := false
+					for _, st := range list {
+						if ast.Node(st) == child {
+							after = true
+							continue
+						}
+						if !after {
+							continue
+						}
+						if inc, ok := st.(*ast.IncDecStmt); ok && inc.Tok == token.INC {
+							if name, ok := isRecvField(inc.X); ok && name == cf {
+								advanced = true
+							}
+						}
+					}
+					child = path[i]
+					if stop {
+						break
+					}
+				}
+				if !advanced {
+					name := enclosingFuncName(f, as.Pos())
+					sites = append(sites, synSite{pos: as.Pos(), file: f, key: fmt.Sprintf("%s:%s[%s]:cursor-not-advanced", name, sf, cf),
+						msg: fmt.Sprintf("%s takes %s[%s] and the cursor %s is not incremented on every path that follows: the same element is handed out again", name, sf, cf, cf)})
+				}
+				return true
+			})
+		}
+	}
+	return
+}
+
+const fixtureCursorAdvance = `package fixture
+
+type P struct {
+	maps []map[string]any
+	mi   int
+}
+
+func (p *P) good(reuse bool) (m map[string]any) {
+	if reuse {
+		if p.mi < len(p.maps) {
+			m = p.maps[p.mi]
+		} else {
+			m = map[string]any{}
+			p.maps = append(p.maps, m)
+		}
+		p.mi++
+	}
+	return
+}
+
+func (p *P) bad(reuse bool) (m map[string]any) {
+	if reuse {
+		if p.mi < len(p.maps) {
+			m = p.maps[p.mi]
+		} else {
+			m = map[string]any{}
+			p.maps = append(p.maps, m)
+			p.mi++
+		}
+	}
+	return
+}
+`
+
+func ruleCursorAdvance(prog *Program, rep *Report) {
+	rep.Rules = append(rep.Rules, "R-cursor: where a parser takes an element of one of its slice fields at one of its cursor fields (the recycled maps of the Reuse option: m = p.maps[p.mi]) the cursor is incremented by a later statement of the same or an enclosing block: no element is handed out twice within a document")
+	runSynRule(prog, rep, "R-cursor", []string{"oj", "gen"}, matchCursorAdvance, fixtureCursorAdvance, 1, 2)
+}
